@@ -153,7 +153,7 @@ static void check_frame(const uni::Spec & spec, const std::set<uint32_t> & pad, 
         report("C03", sk + "|decode-fails", std::string("decoding the emitted bytes ") + (threw ? "throws" : "runs past the end / seeks before the start"), lab);
     else if (in.g != E.size())
         report("C03", sk + "|decode-consumes", "decoding consumed " + std::to_string(in.g) + " of " + std::to_string(E.size()) + " emitted bytes", lab);
-    else {
+    if (!threw) {
         /* (g) codec round trip on every serialised field */
         std::vector<rv::Item> d1 = rv::dump(*o), d2 = rv::dump(*o2);
         std::set<std::string> ser;
@@ -165,6 +165,8 @@ static void check_frame(const uni::Spec & spec, const std::set<uint32_t> & pad, 
         for (auto & v : l.vars) { if (layout_known) g_allfields[spec.cls->name].insert(v.path); if (!layout_known || v.count == 0 || inside(v.data, v.count * v.elem)) ser.insert(v.path); }
         if (!layout_known) { ser.erase("apiMajor"); for (auto it = ser.begin(); it != ser.end();) it = (it->find("_present") != std::string::npos) ? ser.erase(it) : std::next(it); }
         for (auto & s : ser) g_serialised[spec.cls->name].insert(s);
+        for (auto & sc : l.scalars)   /* layout selectors the decoder restores from the size: part of the object's value */
+            if (sc.path == "apiMajor" || sc.path.find("_present") != std::string::npos) ser.insert(sc.path);
         std::string df = rv::diff(d1, d2, [&](const std::string & p) {
             std::string q = p;
             size_t br = q.find('[');
